@@ -15,6 +15,9 @@
     proposal's neighbour (the same at every use of the object), after Undo the original tree
     and text, never an error; distinctness and coverage are judged on the first use of every
     object.
+    Trees that are not binary are outside the property: the clause "two per inner branch"
+    ([coverage]) is not demanded of them, everything else (correspondence, every proposal a
+    one-split neighbour, distinctness, restoration) is.
     obs :  ((err e) (n k) (orig T) (nw0 s)
             (props (((tree T_i) (audit (...)) (nw s_i)) ...))     -- inside the callback, after Apply
             (final T') (audit (...)) (nwf s'))                    -- after the whole enumeration
@@ -34,7 +37,7 @@
     exactly two proposals (hence 2 x inner branches proposals); after the enumeration the
     dump and the Newick text are those before it. *)
 From Coq Require Import String ZArith QArith Bool Arith List.
-From GT Require Import Base.Sexp Base.UTree Base.Codec Spec.Obs Model.Reroot Model.NNI
+From GT Require Import Base.Sexp Base.UTree Base.Codec Spec.Obs Spec.NNISpec Model.Reroot Model.NNI
      Model.Newick Model.NewickNum Judge.Common.
 Import ListNotations.
 Local Close Scope Q_scope.
@@ -163,7 +166,7 @@ Definition oracle (t : utree) (o : sexp) (ps : list prop_obs) : option string :=
                    else Some ("after the full enumeration the tree is not restored: " ++ show_utree gf));
                   (if String.eqb nw0 nwf then None
                    else Some ("after the full enumeration the text changed from " ++ nw0 ++ " to " ++ nwf));
-                  coverage t removed]
+                  (if binary t then coverage t removed else None)]
     end
   | _, _, _, _, _ => Some "undecodable observation"
   end.
@@ -350,7 +353,8 @@ Definition judge_one (t : utree) (o : sexp) (ops : option (list op)) (collect : 
              match co with
              | Some m => VCorr m
              | None => VOk (negb (Nat.eqb (length ps) 0))
-                           (if plain then (if rooted t then "rooted" else "unrooted")
+                           (if negb (binary t) then "nonbinary"
+                            else if plain then (if rooted t then "rooted" else "unrooted")
                             else match collect with Some _ => "kept" | None => "ops" end)
              end
            end
